@@ -31,7 +31,17 @@ def _hcp():
     return crystal.Crystal.HCP(1.0)
 
 
+def _b2t():
+    # tetragonal B2-like cell, c = 1.2: with cutoffs 1.01 no cluster and no jump extends along z
+    return crystal.Crystal(np.diag([1., 1., 1.2]), [[np.zeros(3)], [np.array([0.5, 0.5, 0.5])]], chemistry=['A', 'B'])
+
+
 CONFIGS = {
+    # tetragonal B2-like cell, 2x2x1: vacancy + spectators + order-3 clusters (TS clusters with spectator sites), no cluster as wide as the supercell
+    'b2t-221v-o3': (_b2t, (2, 2, 1), (0,), 0, 1.01, 3, 1.01, 1),
+    'b2t-221-o3': (_b2t, (2, 2, 1), (0,), None, 1.01, 3, 1.01, 1),
+    # three cells along x (a jump and its reverse see different spectator neighbourhoods); mobile sites other than three fixed to occupied
+    'b2t-321v-o3': (_b2t, (3, 2, 1), (0,), 0, 1.01, 3, 1.01, 1, {'free_mobile': (1, 2, 3)}),
     # name: (crystal ctor, superlatt diag, spectator chems, vacancy index or None, cluster cutoff, max order, jump cutoff or None, mobile chem)
     'sc221': (_sc, (2, 2, 1), (), None, 1.01, 2, 1.01, 0),
     'sc222': (_sc, (2, 2, 2), (), None, 1.01, 2, 1.01, 0),
@@ -42,6 +52,11 @@ CONFIGS = {
     'fcc211': (_fcc, (2, 1, 1), (), None, 0.8, 3, 0.8, 0),
     'b2-211': (_b2, (2, 1, 1), (0,), None, 1.01, 2, 1.01, 1),
     'b2-113v': (_b2, (1, 1, 3), (0,), 0, 1.01, 2, 1.01, 1),
+    'b2-211v': (_b2, (2, 1, 1), (0,), 1, 1.01, 2, 1.01, 1),
+    # one cell thick along directions in which vacancy clusters extend: cluster sites alias the vacancy itself
+    'b2-113v-o3': (_b2, (1, 1, 3), (0,), 0, 1.01, 3, 1.01, 1, {'aliasing': True}),
+    'b2-211-o3': (_b2, (2, 1, 1), (0,), None, 1.01, 3, 1.01, 1),
+    'b2-221v': (_b2, (2, 2, 1), (0,), 0, 1.01, 2, 1.01, 1),
     'hcp211': (_hcp, (2, 1, 1), (), None, 1.01, 2, 1.01, 0),
     'hcp221': (_hcp, (2, 2, 1), (), None, 1.01, 2, 1.01, 0),
 }
@@ -52,7 +67,8 @@ _BUILT = {}
 def build(name):
     if name in _BUILT:
         return _BUILT[name]
-    ctor, diag, spect, vac, ccut, order, jcut, chem = CONFIGS[name]
+    ctor, diag, spect, vac, ccut, order, jcut, chem = CONFIGS[name][:8]
+    opts = CONFIGS[name][8] if len(CONFIGS[name]) > 8 else {}
     crys = ctor()
     sup = supercell.ClusterSupercell(crys, np.diag(diag), spectator=spect)
     clexp = cluster.makeclusters(crys, ccut, order)
@@ -63,8 +79,10 @@ def build(name):
     if vac is not None:
         sup.addvacancy(vac)
         vclexp = sorted_clusters(cluster.makeVacancyClusters(crys, chem, clexp))
+        # a sampler with a vacancy only uses VACANCY transition-state clusters (built from the vacancy clusters)
+        TScl = sorted_clusters(cluster.makeTSclusters(crys, chem, jn, vclexp)) if jn else []
     d = dict(name=name, crys=crys, sup=sup, clexp=clexp, vclexp=vclexp, jn=jn, TScl=TScl, chem=chem, vacancy=vac,
-             nmob=sup.size * sup.Nmobile, nspec=sup.size * sup.Nspec)
+             nmob=sup.size * sup.Nmobile, nspec=sup.size * sup.Nspec, opts=opts)
     _BUILT[name] = d
     return d
 
@@ -98,6 +116,10 @@ def occupations(cfg, src):
     for k in range(nm):
         if vac is not None and k == vac:
             mocc[k] = -1
+            continue
+        free = cfg.get('opts', {}).get('free_mobile')
+        if free is not None and k not in free:
+            mocc[k] = 1
             continue
         o = src.int('m%d' % k, 0, 1)
         mocc[k] = int(o)
